@@ -135,9 +135,10 @@ class Visitor(ast.NodeVisitor):
         """Represent the call by dumping its source code."""
         if node in self._recomputed_values:
             value = self._recomputed_values[node]
-            text = self._atok.get_text(node)
 
-            self.reprs[text] = value
+            if _representable(value=value):
+                text = self._atok.get_text(node)
+                self.reprs[text] = value
 
         self.generic_visit(node=node)
 
@@ -145,9 +146,10 @@ class Visitor(ast.NodeVisitor):
         """Represent the list comprehension by dumping its source code."""
         if node in self._recomputed_values:
             value = self._recomputed_values[node]
-            text = self._atok.get_text(node)
 
-            self.reprs[text] = value
+            if _representable(value=value):
+                text = self._atok.get_text(node)
+                self.reprs[text] = value
 
         self.generic_visit(node=node)
 
@@ -155,9 +157,10 @@ class Visitor(ast.NodeVisitor):
         """Represent the set comprehension by dumping its source code."""
         if node in self._recomputed_values:
             value = self._recomputed_values[node]
-            text = self._atok.get_text(node)
 
-            self.reprs[text] = value
+            if _representable(value=value):
+                text = self._atok.get_text(node)
+                self.reprs[text] = value
 
         self.generic_visit(node=node)
 
@@ -165,9 +168,10 @@ class Visitor(ast.NodeVisitor):
         """Represent the dictionary comprehension by dumping its source code."""
         if node in self._recomputed_values:
             value = self._recomputed_values[node]
-            text = self._atok.get_text(node)
 
-            self.reprs[text] = value
+            if _representable(value=value):
+                text = self._atok.get_text(node)
+                self.reprs[text] = value
 
         self.generic_visit(node=node)
 
@@ -175,9 +179,10 @@ class Visitor(ast.NodeVisitor):
         """Represent the subscript with its source code."""
         if node in self._recomputed_values:
             value = self._recomputed_values[node]
-            text = self._atok.get_text(node)
 
-            self.reprs[text] = value
+            if _representable(value=value):
+                text = self._atok.get_text(node)
+                self.reprs[text] = value
 
         self.generic_visit(node=node)
 
